@@ -28,6 +28,9 @@ use std::{
 
 use futures_timer::Delay;
 use libp2p_identity::PeerId;
+#[cfg(libp2p_verif)]
+use libp2p_core::verif_clock::Instant;
+#[cfg(not(libp2p_verif))]
 use web_time::Instant;
 
 use crate::{MessageId, TopicHash, time_cache::TimeCache};
